@@ -1,9 +1,68 @@
-import ShpanVerif.Util.Parse
-/- Driver handler for C06 (stub: replaced when the property's model lands). -/
-namespace ShpanVerif.Drive.C06
+import ShpanVerif.Drive.ConcShared
+/-
+Driver handler for C06.  Case / observation format: harness/run/conc_util.go.
 
-/-- returns (model output, spec verdict on the observation, reason) -/
-def handle (_c _obs : String) : String × Bool × String :=
-  ("unimplemented", false, "no model yet")
+spec predicate (independent of the model, evaluated on what the real code did): the terminal returned nil, the
+delivered values are exactly f(0..n-1) each once (concurrent consume: the callback saw exactly 0..n-1 each once), the
+mapper / callback was invoked exactly once per element, never more than c invocations were in flight, nothing hung
+and no goroutine was left.
+
+model output: sync=1 cases are replayed in the executable transition system (library steps run to quiescence
+between the observed environment actions; every observed action must be enabled and the observed in-flight and
+emitted counts must agree); the model's own delivered multiset, maximal parallelism, invocation multiset and result
+are printed.  sync=0 cases (interleaving chosen by the Go scheduler) compare the schedule-independent summary that
+the theorems `C06_exactly_once` / `C06_consume_exactly_once` / `C06_parallelism` predict; the observed maximal
+parallelism is accepted iff it is ≤ min(c, n) (never compared by equality).  `nest` (Buffered over concurrent map)
+has no model of its own: summary only.
+-/
+namespace ShpanVerif.Drive.C06
+open ShpanVerif.Util ShpanVerif.Model ShpanVerif.Drive.Conc
+
+def expectDel (c : Case) : List Nat :=
+  if c.op == "ccons" then List.range c.n else (List.range c.n).map (· + 1000)
+
+def spec (c : Case) (o : Obs) : Bool × String :=
+  if o.res != "ok" then (false, s!"terminal returned {o.res}")
+  else if o.hang != "-" then (false, s!"hang {o.hang}")
+  else if o.del != expectDel c then (false, "delivered multiset differs from map f source")
+  else if o.calls != List.range c.n then (false, "callback not invoked exactly once per element")
+  else if o.maxin > c.c then (false, s!"{o.maxin} callbacks in flight with concurrency {c.c}")
+  else if o.leak != 0 then (false, s!"{o.leak} goroutines left")
+  else (true, "")
+
+def model (c : Case) (o : Obs) : String :=
+  if !c.failureFree then "C06 cases are failure-free"
+  else
+    let maxEcho := if o.maxin ≤ min c.c c.n && (c.n == 0 || 1 ≤ o.maxin) then toString o.maxin else s!"<={min c.c c.n}"
+    if c.sync && c.op == "cmap" then
+      let cfg : ConcMap.Cfg := { n := c.n, c := c.c }
+      let r := cmReplay cfg c.sg c.cg o.trace
+      match r.bad with
+      | some why => s!"replay-failed {why}"
+      | none =>
+        let s := r.st
+        let leak := if ConcMap.final cfg s then 0 else 1
+        fmtObs (resStr s.res) (sortNats (s.delivered.map (· + 1000))) (toString r.maxIn) (sortNats s.mapCalls) s.cursor
+          (if s.srcClosed then 1 else 0) (if s.badWindow || s.badOverlap then "bad" else "-") leak "-" o.trace o.plog
+    else if c.sync && c.op == "ccons" then
+      let cfg : ConcConsume.Cfg := { n := c.n, c := c.c }
+      let r := ccReplay cfg c.sg o.trace
+      match r.bad with
+      | some why => s!"replay-failed {why}"
+      | none =>
+        let s := r.st
+        let leak := if ConcConsume.final cfg s then 0 else 1
+        fmtObs (resStrC s.res) (sortNats s.called) (toString r.maxIn) (sortNats s.called) s.cursor
+          (if s.srcClosed then 1 else 0) (if s.badWindow || s.badOverlap then "bad" else "-") leak "-" o.trace o.plog
+    else
+      fmtObs "ok" (expectDel c) maxEcho (List.range c.n) c.n 1 "-" 0 "-" o.trace o.plog
+
+def handle (cs obs : String) : String × Bool × String :=
+  match parseCase cs with
+  | none => ("bad-case", false, "unparsable case")
+  | some c =>
+    let o := parseObs obs
+    let (ok, why) := spec c o
+    (model c o, ok, why)
 
 end ShpanVerif.Drive.C06
